@@ -812,3 +812,90 @@ pub fn replay_comb(objs: &Objects, inp: &[Value]) -> Value {
     );
     json!({"results": results, "panic": panics})
 }
+
+// ------------------------------------------------- replay: reporters ----
+
+/// Shared in-memory output for writers that do not expose theirs.
+#[derive(Clone, Debug, Default)]
+pub struct SharedBuf(pub Rc<RefCell<Vec<u8>>>);
+
+impl std::io::Write for SharedBuf {
+    fn write(&mut self, buf: &[u8]) -> std::io::Result<usize> {
+        self.0.borrow_mut().extend_from_slice(buf);
+        Ok(buf.len())
+    }
+
+    fn flush(&mut self) -> std::io::Result<()> {
+        Ok(())
+    }
+}
+
+impl SharedBuf {
+    fn text(&self) -> String {
+        String::from_utf8_lossy(&self.0.borrow()).into_owned()
+    }
+}
+
+/// Replays one sequential stream through the four built-in reporters (each
+/// behind `Normalize`, as their constructors build them).
+pub fn replay_reporters(objs: &Objects, stream: &[Value], opts: &Value) -> Value {
+    let items = build_items(objs, stream);
+    let mut outputs = serde_json::Map::new();
+    let mut panics = serde_json::Map::new();
+    let mut run = |name: &str, f: &mut dyn FnMut() -> String| {
+        match panic::catch_unwind(AssertUnwindSafe(|| f())) {
+            Ok(s) => {
+                outputs.insert(name.into(), json!(s));
+            }
+            Err(p) => {
+                outputs.insert(name.into(), json!(""));
+                panics.insert(
+                    name.into(),
+                    json!(format!("{:?}", evjson::payload(&Arc::from(p)))),
+                );
+            }
+        }
+    };
+    let verbose = opts["verbose"].as_u64().unwrap_or(0) as u8;
+    run("basic", &mut || {
+        let buf = SharedBuf::default();
+        let mut wr = writer::Basic::new::<RWorld>(
+            buf.clone(),
+            Coloring::Never,
+            Verbosity::from(verbose),
+        );
+        feed(
+            &mut wr,
+            &writer::basic::Cli { verbose: 0, color: Coloring::Never },
+            &items,
+        );
+        buf.text()
+    });
+    run("libtest", &mut || {
+        let buf = SharedBuf::default();
+        let mut wr = Libtest::<RWorld, _>::new(buf.clone());
+        let cli = writer::libtest::Cli {
+            format: None,
+            show_output: opts["show_output"] == true,
+            report_time: (opts["report_time"] == true)
+                .then_some(writer::libtest::ReportTime::Plain),
+            nightly: None,
+        };
+        feed(&mut wr, &cli, &items);
+        buf.text()
+    });
+    run("json", &mut || {
+        let buf = SharedBuf::default();
+        let mut wr = writer::Json::new::<RWorld>(buf.clone());
+        feed(&mut wr, &cli::Empty, &items);
+        buf.text()
+    });
+    run("junit", &mut || {
+        let buf = SharedBuf::default();
+        let mut wr =
+            writer::JUnit::<RWorld, _>::new(buf.clone(), Verbosity::from(verbose));
+        feed(&mut wr, &writer::junit::Cli { verbose: None }, &items);
+        buf.text()
+    });
+    json!({"outputs": outputs, "panics": panics})
+}
